@@ -23,14 +23,16 @@ PROBES = {
     "p9": "f(a as ta)",
     "p10": ("f > a", "f(!a)"),
     "p11": "f > $v:@T",
+    "p12": "h1 > a",
+    "p13": "h2 > a",
     "q2": "f > b",
     "bad": "f > zzz",
     "bad2": "g > #nope",
     "bad3": "f > lam > a",
 }
-ENV = {"f": LW.f, "g": LW.g, "lam": (lambda z: z)}
-FNS = {"f": LW.f, "g": LW.g}
-ORIG = {"f": LW.f.__code__, "g": LW.g.__code__}
+ENV = {"f": LW.f, "g": LW.g, "h1": LW.h1, "h2": LW.h2, "lam": (lambda z: z)}
+FNS = {"f": LW.f, "g": LW.g, "h1": LW.h1, "h2": LW.h2}
+ORIG = {name: fn.__code__ for name, fn in FNS.items()}
 
 
 class _OverlayProbe:
